@@ -324,6 +324,24 @@ def run(ctx):
                '' if ok else '%s.dbval2val can return a container loaded for an object without wrapping it (e.g. when it is empty): in-place changes of that value never '
                'reach _attr_changed_ and are not written' % cls.name)
     ctx.floor('C28-LOADWRAP', nlw, 2, 'dbval2val functions of Json/array converters')
+    # TrackedDict.update normalises its positional arguments to dicts before handing them to the tracked _update (which wraps nested containers through
+    # __setitem__ / make): the normalising expression is evaluated (q.concrete_eval) on sample arguments -- a dict, a list of pairs, a tuple of pairs -- and must
+    # give a dict each time.  A list of (key, value) tuples passed through as it is would be wrapped as a TrackedList of tuples, its nested values untracked.
+    from ..q import concrete_eval, Unknown
+    up = TD.methods.get('update')
+    ctx.need(up is not None, 'C28: TrackedDict.update not found')
+    comps = [c for c in ast.walk(up.node) if isinstance(c, (ast.ListComp, ast.GeneratorExp)) and len(c.generators) == 1 and isinstance(c.generators[0].target, ast.Name)]
+    ctx.need(comps, 'C28: TrackedDict.update no longer normalises its arguments in a comprehension')
+    for c in comps[:1]:
+        var = c.generators[0].target.id
+        wrong = []
+        for sample in ({'k': {'n': 1}}, [('k', {'n': 1})], (('k', [1]),)):
+            try: out = concrete_eval(c.elt, {var: sample})
+            except Unknown: out = Unknown
+            if not isinstance(out, dict): wrong.append('%s -> %s' % (type(sample).__name__, 'unreadable' if out is Unknown else type(out).__name__))
+        ctx.ob('C28-WRAP.update-arguments-become-dicts', up, c, not wrong,
+               '' if not wrong else 'TrackedDict.update hands a non-dict argument on unchanged (%s): the values of a list of (key, value) pairs enter the document as plain containers '
+               'and later in-place changes of them are lost' % ', '.join(wrong), node=c)
 
 
 def def_reaches_changed(ctx, cls, f, muts):
